@@ -3,9 +3,9 @@ import ast
 
 from ..core import AnalysisError, u, walk_local, enclosing_stmt
 from ..lib import (construct, std_facts, def_of, facts_imply, facts_at,
-                   calls_of_node, returns_of, copy_kind, kwarg)
+                   calls_of_node, returns_of, copy_kind, kwarg, card_cases)
 from ..resolve import store_accesses
-from ..cfg import witness
+from ..cfg import witness, decompose
 from .common import allowed_stores, instance_state
 
 
@@ -117,9 +117,17 @@ def run(ctx):
               'constant() stores although: %s' % ', '.join(l for l, _ in miss), kf.loc(n.ast), instance='define')
     ctx.check(u(n.ast.value) == kf.params[1], 'C05.constant-guards', construct(kf), 'the object given is stored as is', 'constant() stores `%s`' % u(n.ast.value), kf.loc(n.ast), instance='stores-object')
   g, facts = std_facts(prog, dm)
-  amb = [n for n in g.live_nodes() if n.kind == 'raise_stmt']
+  # exits classified by how many constants match (0 / 1 / several), whatever the spelling of the tests
+  M = None
+  for n in g.live_nodes():
+    if n.kind == 'stmt' and isinstance(n.ast, ast.Assign) and isinstance(n.ast.value, ast.Call) and u(n.ast.value.func) == '_CONSTANTS.matching_selectors' \
+        and isinstance(n.ast.targets[0], ast.Name):
+      M = n.ast.targets[0].id
+  if M is None:
+    raise AnalysisError('ParserDelegate.macro no longer takes its candidates from _CONSTANTS.matching_selectors')
+  amb = [n for n in g.live_nodes() if n.kind == 'raise_stmt' and card_cases(facts[n.id], M) == {2, 3}]
   one = [n for n in g.live_nodes() if n.kind == 'return' and 'constant' in u(n.ast.value)]
-  ok = bool(amb) and bool(one) and all(any(fct[0] == 'c' and fct[2] is True and fct[1].replace(' ', '') == 'len(matching_selectors)==1' for fct in facts[n.id]) for n in one)
+  ok = bool(amb) and bool(one) and all(card_cases(facts[n.id], M) == {1} for n in one)
   ctx.check(ok, 'C05.constant-guards', con, 'a unique constant match is used, an ambiguous abbreviation raises',
             'ambiguous constant abbreviations are no longer rejected in the delegate', dm.loc(), instance='ambiguous')
   qp = ctx.func('config.query_parameter')
@@ -138,6 +146,28 @@ def run(ctx):
   g_h, _f_h = std_facts(prog, hk)
   loops_h = [n for n in g_h.live_nodes() if n.kind == 'for']
   vnodes = [n for n in g_h.live_nodes() if any(prog.resolve_call(hk, c) == 'config.validate_reference' for c in calls_of_node(n))]
+  if not vnodes and loops_h:
+    # the two checks of validate_reference done in place (or through helpers put back inline): both tests on every pass, each failing into a raise
+    lv = u(loops_h[0].ast.target)
+    want = {'%s.config_key in _CONFIG' % lv: 'bindings', '%s.evaluate' % lv: 'evaluation'}
+    tests = {}
+    for n in g_h.live_nodes():
+      if n.kind == 'test':
+        for t_, _p in decompose(n.ast, True) + decompose(n.ast, False):
+          if t_ in want:
+            tests.setdefault(want[t_], []).append(n)
+    raises = {}
+    for n in g_h.live_nodes():
+      if n.kind == 'raise_stmt' or any(prog.resolve_call(hk, c) in prog.noreturn for c in calls_of_node(n)):
+        for t_, what in want.items():
+          if ('c', t_, False) in _f_h[n.id]:
+            raises[what] = True
+    if set(tests) == {'bindings', 'evaluation'} and set(raises) == {'bindings', 'evaluation'}:
+      vnodes = [tests['bindings'][0]]
+      first_ = [b for b, k in g_h.succ[loops_h[0].id] if k == 'loop']
+      both = all(first_ and (first_[0] in [x.id for x in ns] or witness(g_h, first_[0], [loops_h[0].id], avoid=[x.id for x in ns]) is None)
+                 for ns in tests.values())
+      ev = ev or both
   every = bool(loops_h) and bool(vnodes)
   for lp in loops_h:
     first = [b for b, k in g_h.succ[lp.id] if k == 'loop']
